@@ -289,6 +289,8 @@ class Check:
     def prove(self, prop_file: str, extra_targets: Sequence[str] = ()) -> None:
         """Regenerate gen/*.v, build the closure of props/<prop_file>, check the grep gate
         and the Print Assumptions output.  Raises Broken when anything fails."""
+        if prop_file in getattr(self, "_proved", set()):
+            return                      # a later stage of the same check asks again: already done
         from translate import regenerate_all
         vo = f"props/{prop_file}o"
         targets = [vo, "theories/Eqb.vo"] + list(extra_targets) + list(getattr(self, "_model_vo", ()))
@@ -327,6 +329,7 @@ class Check:
                 self.coverage["discharged"] += 1
             else:
                 raise Broken(f"coqchk does not accept {lib} or reports axioms", summary[-2000:])
+        self._proved = getattr(self, "_proved", set()) | {prop_file}
         self.coverage["checker_cmd"] = (
             f"cd {COQ} && coq_makefile -f _CoqProject -o Makefile && make {vo}  "
             f"(coqc 8.16.1, full .vo build; Print Assumptions after every theorem)")
